@@ -8,6 +8,7 @@ import (
 	"encoding/base64"
 	"encoding/pem"
 	"fmt"
+	"io"
 	"net/http"
 	"net/http/httptest"
 	"os"
@@ -15,6 +16,7 @@ import (
 	"strconv"
 	"strings"
 	"testing"
+	"testing/iotest"
 	"time"
 
 	vrt "github.com/gotid/god"
@@ -65,16 +67,17 @@ func newSigEnv(c *vrt.Cases) *sigEnv {
 
 type sigReq struct {
 	method, path, query, body string
-	ts                          int64
-	key                         []byte
-	fingerprint                 string
-	reqURI                      string
-	enc                         codec.RsaEncryptor
+	ts                        int64
+	key                       []byte
+	fingerprint               string
+	reqURI                    string
+	enc                       codec.RsaEncryptor
 	// what is signed (tampering = changing the request after signing)
 	sMethod, sPath, sQuery, sBody string
 	sTs                           int64
 	sKey                          []byte
 	mangleSig, mangleSecret       bool
+	unknownLen                    bool // body of undeclared length (chunked transfer): ContentLength = -1
 }
 
 func (e *sigEnv) request(q sigReq) *http.Request {
@@ -105,6 +108,10 @@ func (e *sigEnv) request(q sigReq) *http.Request {
 	if q.reqURI != "" {
 		r.Header.Set("X-Request-Uri", q.reqURI)
 	}
+	if q.unknownLen {
+		r.ContentLength = -1
+		r.Body = io.NopCloser(iotest.OneByteReader(strings.NewReader(q.body)))
+	}
 	return r
 }
 
@@ -124,66 +131,75 @@ func TestVerifContentSignature(t *testing.T) {
 			for _, strict := range []bool{true, false} {
 				for _, off := range []int64{-tol - 1, -tol, 0, tol, tol + 1} {
 					for _, tamper := range tampers {
-						key := []byte("0123456789abcdef")
-						q := sigReq{method: method, path: "/api/do", query: "a=1&b=2", body: "payload", ts: now + off, key: key, fingerprint: "fp1", enc: env.enc}
-						if method == "GET" || method == "HEAD" {
-							q.body = ""
-						}
-						q.sMethod, q.sPath, q.sQuery, q.sBody, q.sTs, q.sKey = q.method, q.path, q.query, q.body, q.ts, q.key
-						tampered := tamper != "none"
-						switch tamper {
-						case "timestamp":
-							q.sTs = q.ts + 1
-						case "method":
-							q.sMethod = "TRACE"
-						case "path":
-							q.sPath = "/api/other"
-						case "query":
-							q.sQuery = "a=1&b=3"
-						case "body":
-							q.sBody = q.body + "x"
-						case "key":
-							q.sKey = []byte("fedcba9876543210")
-						case "signature":
-							q.mangleSig = true
-						case "fingerprint":
-							q.fingerprint = "unknown"
-						case "secret-blob":
-							q.mangleSecret = true
-						case "foreign-keypair":
-							q.enc = env.enc2
-						case "request-uri":
-							q.reqURI = "/api/elsewhere?a=1&b=2"
-						case "request-uri-consistent":
-							// a proxy rewrote the URL and passes the original one along: still authentic
-							q.reqURI = "/api/do?a=1&b=2"
-							q.path = "/internal/do"
-							tampered = false
-						}
-						ran := false
-						h := ContentSecurityHandler(env.dec, sigTolerance, strict)(http.HandlerFunc(func(w http.ResponseWriter, req *http.Request) { ran = true }))
-						rec := httptest.NewRecorder()
-						var pan any
-						func() {
-							defer func() { pan = recover() }()
-							h.ServeHTTP(rec, env.request(q))
-						}()
-						guarded := method == "GET" || method == "POST" || method == "PUT" || method == "DELETE"
-						inTime := off >= -tol && off <= tol
-						want := !guarded || !strict || (!tampered && inTime)
-						class := fmt.Sprintf("%s/strict=%v/offset=%+d/tamper=%s/ran=%v", method, strict, off, tamper, ran)
-						c.Eval(class, func() any {
-							return map[string]any{"method": method, "strict": strict, "clock_offset_s": off, "tampered": tamper, "handler_ran": ran, "status": rec.Code}
-						})
-						in := fmt.Sprintf("method=%s strict=%v offset=%+ds tamper=%s", method, strict, off, tamper)
-						if pan != nil {
-							c.Violation(in, "panic", fmt.Sprint(pan))
-							continue
-						}
-						if ran != want {
-							c.Violation(in, "admit/deny", fmt.Sprintf("handler ran=%v (status %d), want %v", ran, rec.Code, want))
+						for _, unknownLen := range []bool{false, true} {
+							key := []byte("0123456789abcdef")
+							q := sigReq{method: method, path: "/api/do", query: "a=1&b=2", body: "payload", ts: now + off, key: key, fingerprint: "fp1", enc: env.enc, unknownLen: unknownLen}
+							if method == "GET" || method == "HEAD" {
+								q.body = ""
+							}
+							q.sMethod, q.sPath, q.sQuery, q.sBody, q.sTs, q.sKey = q.method, q.path, q.query, q.body, q.ts, q.key
+							tampered := tamper != "none"
+							switch tamper {
+							case "timestamp":
+								q.sTs = q.ts + 1
+							case "method":
+								q.sMethod = "TRACE"
+							case "path":
+								q.sPath = "/api/other"
+							case "query":
+								q.sQuery = "a=1&b=3"
+							case "body":
+								q.sBody = q.body + "x"
+							case "key":
+								q.sKey = []byte("fedcba9876543210")
+							case "signature":
+								q.mangleSig = true
+							case "fingerprint":
+								q.fingerprint = "unknown"
+							case "secret-blob":
+								q.mangleSecret = true
+							case "foreign-keypair":
+								q.enc = env.enc2
+							case "request-uri":
+								q.reqURI = "/api/elsewhere?a=1&b=2"
+							case "request-uri-consistent":
+								// a proxy rewrote the URL and passes the original one along: still authentic
+								q.reqURI = "/api/do?a=1&b=2"
+								q.path = "/internal/do"
+								tampered = false
+							}
+							ran := false
+							seenBody := ""
+							h := ContentSecurityHandler(env.dec, sigTolerance, strict)(http.HandlerFunc(func(w http.ResponseWriter, req *http.Request) {
+								ran = true
+								b, _ := io.ReadAll(req.Body)
+								seenBody = string(b)
+							}))
+							rec := httptest.NewRecorder()
+							var pan any
+							func() {
+								defer func() { pan = recover() }()
+								h.ServeHTTP(rec, env.request(q))
+							}()
+							guarded := method == "GET" || method == "POST" || method == "PUT" || method == "DELETE"
+							inTime := off >= -tol && off <= tol
+							want := !guarded || !strict || (!tampered && inTime)
+							class := fmt.Sprintf("%s/strict=%v/offset=%+d/tamper=%s/unknownlen=%v/ran=%v", method, strict, off, tamper, unknownLen, ran)
+							c.Eval(class, func() any {
+								return map[string]any{"method": method, "strict": strict, "clock_offset_s": off, "tampered": tamper, "handler_ran": ran, "status": rec.Code}
+							})
+							in := fmt.Sprintf("method=%s strict=%v offset=%+ds tamper=%s length-declared=%v", method, strict, off, tamper, !unknownLen)
+							if pan != nil {
+								c.Violation(in, "panic", fmt.Sprint(pan))
+								continue
+							}
+							if ran != want {
+								c.Violation(in, "admit/deny", fmt.Sprintf("handler ran=%v (status %d), want %v", ran, rec.Code, want))
+							} else if ran && seenBody != q.body {
+							c.Violation(in, "body", fmt.Sprintf("the admitted handler read body %q, the request carried %q", seenBody, q.body))
 						} else if !ran && rec.Code != http.StatusForbidden {
-							c.Violation(in, "status", fmt.Sprintf("rejected with %d, want 403", rec.Code))
+								c.Violation(in, "status", fmt.Sprintf("rejected with %d, want 403", rec.Code))
+							}
 						}
 					}
 				}
